@@ -13,3 +13,10 @@ check(
     "Trusts the reference implementation in vf/ref/stats.py (plain loops / math.fsum, no wavespectra import) and the stated tolerances; dm on non-uniform frequency grids is a recorded known finding and is checked there against the weaker unweighted relation.",
     "DESIGN.md section 5 C01",
 )
+check(
+    "C02",
+    "Hypothesis-generated integer-exact profiles (ties, plateaus, monotone, top-bin peaks, boundary maxima) lifted to 2D and embedded in datasets, compared with a plain-loop reference peak finder; exhaustive enumeration of all short 1D profiles over {0,1,2,3}",
+    "All 1D profiles of length 3..7 over a 4-letter alphabet are checked exhaustively for tp/fp/alpha/gamma and the NaN clause; multi-dimensional, directional and float32 cases are sampled (hundreds quick / tens of thousands thorough), with every peak class counted in evidence.",
+    "Trusts the reference peak finder / parabola / tail-fit window re-derivation in vf/props/c02.py and vf/ref/stats.py; ties between equal peaks accept any of the tied peaks; float32 output precision tolerances as stated in the evidence assumptions.",
+    "DESIGN.md section 5 C02",
+)
